@@ -899,3 +899,15 @@ Proof.
   exists [c_sp :: w_servo ++ [c_sp]]. repeat split; try (vm_compute; reflexivity).
   vm_compute. intro H. inversion H.
 Qed.
+
+(* a line break inside a value is written as is, so the file no longer parses (not a listed
+   finding: the property quantifies over printable strings; recorded to show the guard's
+   no_break conjunct is needed): port "x\nboard = zz" -> DuplicateOptionError, library "a\nb" -> ParsingError *)
+Lemma line_break_refuted :
+  (exists port, no_padding port = true /\ ini_read (render w_avr w_uno port []) = None) /\
+  (exists lib, no_padding lib = true /\ ini_read (render w_avr w_uno w_com3 [lib]) = None).
+Proof.
+  split.
+  - exists (120 :: c_nl :: k_board ++ [c_sp; c_eq; c_sp; 122; 122]). split; vm_compute; reflexivity.
+  - exists [97; c_nl; 98]. split; vm_compute; reflexivity.
+Qed.
